@@ -30,6 +30,28 @@ func importRules(c *Ctx, foreignProp string, run func(*Ctx), as, text string, mi
 	c.Sites += sub.Sites
 }
 
+// importSome: like importRules, but keeps single obligations (selected by their key).
+func importSome(c *Ctx, foreignProp string, run func(*Ctx), as, text string, min int, keepKey func(key string) bool) {
+	sub := NewCtx(foreignProp, c.P, c.Tier)
+	run(sub)
+	c.Rule(as, text, min)
+	for _, o := range sub.Obls {
+		if !keepKey(o.Key) {
+			continue
+		}
+		parts := strings.SplitN(o.Key, "/", 3)
+		rest := o.Key
+		if len(parts) == 3 {
+			rest = parts[1] + "/" + parts[2]
+		}
+		c.Obls = append(c.Obls, Obligation{Key: c.Prop + "/" + as + "/" + rest, Rule: as, Where: o.Where, Status: o.Status, Detail: o.Detail})
+	}
+	for f := range sub.Funcs {
+		c.Funcs[f] = true
+	}
+	c.Sites += sub.Sites
+}
+
 func ruleIn(ids ...string) func(string) bool {
 	return func(r string) bool {
 		for _, id := range ids {
